@@ -6,7 +6,9 @@ From Coq Require Import List Bool Arith NArith ZArith.
 From Verif Require Import Alist Broker.
 Import ListNotations.
 
-Inductive hop := HOp (o : op) | HReopen (fail : N).
+Inductive hop := HOp (o : op) | HReopen (fail : N)
+  | HReopenRm (ety pid : N) (* Broker.Reopen during which a node's Reopen callback removes pipeline (ety, pid): re-entrant
+                               mutation of the registry while it is being walked *).
 
 (* per event type of the case's universe *)
 Record tobs := { t_ety : N; t_isany : bool; t_deliv : list N; t_thr : Z * bool; t_thrs : Z * bool }.
@@ -47,7 +49,7 @@ Definition opkind (h : hop) : N :=
   match h with
   | HOp (RegisterNode _ _ _ _) => 1 | HOp (RemoveNode _) => 2 | HOp (RegisterPipeline _ _ _ _) => 3
   | HOp (RemovePipeline _ _) => 4 | HOp (RemovePipelineAndNodes _ _) => 5
-  | HOp (SetThr _ _) => 6 | HOp (SetThrSinks _ _) => 7 | HReopen _ => 8
+  | HOp (SetThr _ _) => 6 | HOp (SetThrSinks _ _) => 7 | HReopen _ => 8 | HReopenRm _ _ => 9
   end%N.
 
 (* does the model say the call succeeded / returned an error value *)
@@ -80,6 +82,14 @@ Definition reopen_accepts (b : broker) (fail : N) (o : bobs) : bool :=
   if memN fail all then
     negb (ob_ok o) && ob_err o && memN fail (ob_reopened o) && forallb (fun x => memN x all) (ob_reopened o)
   else ob_ok o && eqNl (ob_reopened o) all.
+
+(* Reopen while pipeline (ety, pid) is removed from inside a node's Reopen: no node fails, so the call succeeds; every
+   object of the pipelines that stay registered throughout ([b'] = after the removal) is reached; nothing outside the
+   registry as it was at the start ([b]) is. *)
+Definition reopen_during_accepts (b b' : broker) (o : bobs) : bool :=
+  ob_ok o && negb (ob_err o) &&
+  forallb (fun x => memN x (ob_reopened o)) (sortN (distinct (all_linked_objs b'))) &&
+  forallb (fun x => memN x (sortN (distinct (all_linked_objs b)))) (ob_reopened o).
 
 (* observation-only oracles *)
 Definition same_state (a c : bobs) : bool :=
@@ -139,6 +149,12 @@ Section Case.
             let mm := amm ++ (if div then [] else check_state b o) in
             tag (mm ++ oracle)
             ++ run_case (div || nonempty mm) adiv b (Some o) closed_so_far (N.succ i) rest
+        | HReopenRm ety pid =>
+            let b' := fst (fst (step cf b (RemovePipeline ety pid))) in
+            let amm := if adiv then [] else (if reopen_during_accepts b b' o then [] else [KReopen]) in
+            let mm := amm ++ (if div then [] else check_state b' o) in
+            tag (mm ++ oracle)
+            ++ run_case (div || nonempty mm) adiv b' (Some o) closed_so_far (N.succ i) rest
         end
     end.
 End Case.
@@ -153,4 +169,5 @@ Fixpoint classes (cfl : list N) (b : broker) (steps : list (hop * bobs)) : list 
   | [] => []
   | (HOp o, _) :: rest => let '(b', r, _) := step (cf cfl []) b o in r :: classes cfl b' rest
   | (HReopen _, _) :: rest => classes cfl b rest
+  | (HReopenRm e p, _) :: rest => classes cfl (fst (fst (step (cf cfl []) b (RemovePipeline e p)))) rest
   end.
